@@ -554,6 +554,22 @@ func (c *SpecCtx) call(x *ast.CallExpr) SpecVal {
 		}
 		n := c.inState(c.old)
 		return n.tr(x.Args[0])
+	case "ref":
+		// ref(x): the address of the local variable x (an allocation of the function under verification)
+		id, ok := x.Args[0].(*ast.Ident)
+		if !ok {
+			c.fail("ref() needs a local variable name")
+		}
+		for _, b := range ft.fn.Blocks {
+			for _, ins := range b.Instrs {
+				if al, ok := ins.(*ssa.Alloc); ok && al.Comment == id.Name {
+					if ts, ok := ft.env[al]; ok && len(ts) == 1 {
+						return SpecVal{T: ts[0], Typ: al.Type(), Sort: "Int"}
+					}
+				}
+			}
+		}
+		c.fail("ref(): no allocated local %s at this point", id.Name)
 	case "panicking":
 		ft.keySort("$panicking", "Bool")
 		return SpecVal{T: ft.get(c.st, "$panicking"), Typ: boolType, Sort: "Bool"}
@@ -692,6 +708,9 @@ func (c *SpecCtx) call(x *ast.CallExpr) SpecVal {
 		// libcall(pkg.Func, args...): the (first) result of a deterministic library function of scalar arguments
 		sig := c.lookupFuncSig(x.Args[0])
 		fname := normName(exprString(x.Args[0]))
+		if !strings.Contains(fname, ".") && c.pkg != nil {
+			fname = pkgKey(c.pkg) + "." + fname
+		}
 		var as []Term
 		var sorts []Sort
 		for _, a := range x.Args[1:] {
